@@ -30,14 +30,14 @@ def _nested_instances(body, cands, guard=None, depth=0):
     return out
 
 
-def _check(assertions, timeout_ms):
+def _check(assertions, timeout_ms, seeds=(0, 7, 23)):
     """Solve in a fresh z3 context, from the SMT-LIB text of the assertions: the verdict then does not depend on the internal term
     numbering left behind by VC generation (which varies from run to run with Python's memory management)."""
     s0 = z3.Solver()
     s0.add(*assertions)
     text = s0.to_smt2()
     r = z3.unknown
-    for attempt, seed in enumerate((0, 7, 23)):
+    for attempt, seed in enumerate(seeds):
         ctx = z3.Context()
         s = z3.Solver(ctx=ctx)
         s.set("rlimit", Z3_RLIMIT)
@@ -59,7 +59,7 @@ def _skolem(sort):
     return z3.Const(f"sk!!{_SK[0]}", sort)     # numbered per obligation (reset in solve): names do not depend on the process history
 
 
-def _prove(conds, goal, depth=0):
+def _prove(conds, goal, depth=0, level=1, timeout_ms=None, seeds=(0, 7, 23)):
     """(result, solver) for `conds |= goal`.  Universal goals are skolemised here (also below an implication), conjunctive goals are
     discharged conjunct by conjunct, each as its own query with its own instantiation hints."""
     extra = []
@@ -83,12 +83,12 @@ def _prove(conds, goal, depth=0):
             for sk in skolems:
                 if sk.sort() == c.var_sort(0):
                     extra.append(z3.substitute_vars(c.body(), sk))
-                    if z3.is_int(sk):          # neighbours too: invariants relate index k with k-1 / k+1
+                    if z3.is_int(sk) and level >= 1:          # neighbours too: invariants relate index k with k-1 / k+1
                         extra.append(z3.substitute_vars(c.body(), sk - 1))
                         extra.append(z3.substitute_vars(c.body(), sk + 1))
                         if len(int_sks) > 1:    # nested index structure: inner quantifiers at the goal's indices as well
                             extra.extend(_nested_instances(z3.substitute_vars(c.body(), sk), int_sks[:3]))
-        elif z3.is_quantifier(c) and c.is_forall() and c.num_vars() == 2 and cands2 \
+        elif level >= 1 and z3.is_quantifier(c) and c.is_forall() and c.num_vars() == 2 and cands2 \
                 and c.var_sort(0) == z3.IntSort() and c.var_sort(1) == z3.IntSort():
             # two-index lemmas (monotone allocation counters, pairwise distinct keys) at all pairs of the goal's indices
             for a in cands2:
@@ -98,7 +98,7 @@ def _prove(conds, goal, depth=0):
     if z3.is_and(goal) and goal.num_args() > 1 and depth < 4:
         r, s = z3.unsat, None
         for cj in goal.children():
-            r, s = _prove(base, cj, depth + 1)
+            r, s = _prove(base, cj, depth + 1, level, timeout_ms, seeds)
             if r != z3.unsat:
                 break
         return r, s
@@ -124,15 +124,22 @@ def _prove(conds, goal, depth=0):
             for h in conds:       # and the universal hypotheses at the same candidates
                 if z3.is_quantifier(h) and h.is_forall() and h.num_vars() == 1 and h.var_sort(0) == z3.IntSort():
                     base.append(z3.substitute_vars(h.body(), c))
-    return _check(base + [z3.Not(goal)], Z3_TIMEOUT_MS)
+    return _check(base + [z3.Not(goal)], timeout_ms or Z3_TIMEOUT_MS, seeds)
 
 
-def solve(ob, use_cvc5=True):
+def solve(ob, use_cvc5=True, fast=False):
     """Sets ob.verdict in {'proved','refuted','unknown'} (for expect='sat': 'reachable'/'vacuous'/'unknown')."""
     t0 = time.time()
     _SK[0] = 0
     if ob.expect == "unsat":
-        r, s = _prove(list(ob.conds), ob.goal)
+        # portfolio: the plain query first (short budget), then the version with skolemisation, conjunct splitting and instantiation hints
+        r, s = _check(list(ob.conds) + [z3.Not(ob.goal)], min(Z3_TIMEOUT_MS, 2_000), seeds=(0,))
+        if r == z3.unknown:      # ... with the universal hypotheses instantiated at the goal's skolem constants only
+            r, s = _prove(list(ob.conds), ob.goal, level=0, timeout_ms=min(Z3_TIMEOUT_MS, 5_000), seeds=(0,))
+        if r == z3.unknown and fast:
+            r, s = _prove(list(ob.conds), ob.goal, level=1, timeout_ms=min(Z3_TIMEOUT_MS, 5_000), seeds=(0,))
+        elif r == z3.unknown:    # ... with neighbours, index pairs and nested instances as well, full budget, several seeds
+            r, s = _prove(list(ob.conds), ob.goal, level=1)
     else:
         # reachability checks (cover / canary) only have to rule out vacuity: 'unknown' is acceptable, so they get a short budget
         r, s = _check(list(ob.conds), 2_000)
@@ -158,7 +165,7 @@ def solve(ob, use_cvc5=True):
         return ob
     ob.verdict = "unknown"
     ob.reason = s.reason_unknown()
-    if use_cvc5 and os.path.exists(CVC5):
+    if use_cvc5 and not fast and os.path.exists(CVC5):
         try:
             smt = "(set-logic ALL)\n" + s.to_smt2()
             with tempfile.NamedTemporaryFile("w", suffix=".smt2", delete=False) as f:
